@@ -88,6 +88,13 @@ Fixpoint dict_keys (l : list string) : list string :=
   | x :: r => x :: filter (fun y => negb (String.eqb x y)) (dict_keys r)
   end.
 
+(* len(set(names)) == len(names) *)
+Fixpoint nodupb (l : list string) : bool :=
+  match l with
+  | [] => true
+  | x :: r => negb (existsb (String.eqb x) r) && nodupb r
+  end.
+
 (* FittableBaseTransform._replace_nans(x, MOST_FREQUENT), one categorical column:
    nan_mask = col < 0; all missing (also: no rows) -> ValueError; missing -> 0, the most frequent category *)
 Definition replace_nans_col (col : list Z) : option (list Z) :=
@@ -158,6 +165,8 @@ Definition fit (t : transform) (tf_train : tframe) (cs : col_stats) : option tra
           _ <- encode_cols cs size prior (b_names cb) tensor ;;              (* transformed_tensor (for the stats) *)
           let new_columns := gen_names (b_names cb) (k - 1) in
           let num_names := match tf_num tf_train with Some nb => b_names nb | None => [] end in
+          (* ValueError: generated names clash with each other or with the numerical columns *)
+          if negb (nodupb (num_names ++ new_columns)) then None else
           _ <- mapM (fun n => assoc n cs) num_names ;;                       (* copy.copy(col_stats[col]) *)
           Some (mktransform true
                             (Some (mkfitted cs size k prior new_columns))
